@@ -468,6 +468,16 @@ func oracleC08(r *flatRun) (string, string) {
 		d := oracle.Diff(r.OutB.Root(r.In.B.Root), (&oracle.Bundle{Files: map[string]any{r.In.B.Root: h.ToJSON(res2.Out)}}).Root(r.In.B.Root), nil)
 		return "second Flatten changes the document", "first difference: " + d + "\nafter first: " + string(r.Res.Out) + "\nafter second: " + string(res2.Out)
 	}
+	// the same second call, but on the live objects of the first one (same document object, same analyzed Spec)
+	if r.Res.Analyzed != nil && r.Res.Doc != nil {
+		res3 := h.ReFlatten(r.Res, r.In.B, r.Opts, h.Env{Policy: r.Pol})
+		if !res3.OK() {
+			return "second Flatten on the same analyzer fails: " + res3.Class() + " " + errClass(res3.Err+res3.Panic), res3.Err + res3.Panic
+		}
+		if string(res3.Out) != string(r.Res.Out) {
+			return "second Flatten on the same analyzer changes the document", "after first: " + string(r.Res.Out) + "\nafter second: " + string(res3.Out)
+		}
+	}
 	return "", ""
 }
 
@@ -662,9 +672,9 @@ func flatCatalogues(c *Ctx) (singles, pairs []gen.Feature) {
 	repContent := map[string]bool{"object": true, "richObject": true, "refAuxRich": true, "refLocal[pet owner]": true, "refAux[pet]": true, "selfRecursiveAux": true, "arrayOfItself": true,
 		"pointer[properties,complex]": true, "pointer[items,simple]": true, "pointer[properties,refAuxCollide]": true, "pointerNestedInTarget": true,
 		"collidingImport[sameName]": true, "collidingImport[sameNameSimple]": true, "collidingImport[twoAtOnce]": true, "twoImportsCaseDifferent": true,
-		"selfRecursiveAuxColliding[simple]": true, "auxDiamondColliding[recursive]": true, "auxDiamondAcrossFiles": true, "refAuxSameNameDifferentDirs": true}
+		"selfRecursiveAuxColliding[simple]": true, "auxDiamondColliding[recursive]": true, "auxDiamondAcrossFiles": true, "refAuxSameNameDifferentDirs": true, "refViaPrefixNamed[local]": true, "selfRecursiveAuxFileNamedLikeRoot": true}
 	pairs = gen.Catalogue(three, func(hn string) bool { return rep[hn] }, func(ct gen.Content) bool { return repContent[ct.Label] })
-	repOther := map[string]bool{"twoPathsManglingAlike": true, "pathPrefixOfAnother": true, "twoCollidingImportsSameGeneratedName": true, "twoInlineSameGeneratedName": true, "paramRef": true, "responseRef": true, "pathItemRef": true, "pathItemRefWithAuxSchema": true, "paramRefWithAuxSchema": true, "secondPath": true, "unusedDefinition[a/b]": true, "unusedChain3": true,
+	repOther := map[string]bool{"twoPathsManglingAlike": true, "pathPrefixOfAnother": true, "twoCollidingImportsSameGeneratedName": true, "twoInlineSameGeneratedName": true, "paramRef": true, "responseRef": true, "pathItemRef": true, "pathItemRefWithAuxSchema": true, "paramRefWithAuxSchema": true, "twoDefsCaseDifferentWithInline": true, "unusedAliasOfCollidingImport": true, "secondPath": true, "unusedDefinition[a/b]": true, "unusedChain3": true,
 		"preNamed[thingOAIGen]": true, "preNamed[getPOKBody]": true}
 	for _, f := range gen.OtherFeatures(three) {
 		if repOther[f.Label] {
